@@ -308,7 +308,8 @@ c03 = with_shared(_c03, [(_c16, {'C16.O1': 'C03.j'}, 'a routine record is comple
                          (_c02, {'C02.k': 'C03.m'}, 'the generator keeps its tables without undefined behaviour: no reference into a container is used after the element was removed'),
                          (_c08, {'C08.a': 'C03.l', 'C08.b': 'C03.l2'}, 'the debugger rewrites the opcode at every site listed for a location: the listed sites are exactly the marker instructions, so no jump, call or return of the program is ever turned into a marker'),
                          (_c04, {'C04.e': 'C03.k'}, 'marks are resolved within the routine that uses them and a jump to a mark that routine does not define is rejected, so every jump lands inside its own routine')])
-c01 = with_shared(_c01, [(_c03, {'C03.f': 'C01.h'}, 'a call binds the record of the routine registered under that name; the latest definition is registered by assignment'),
+c01 = with_shared(_c01, [(c14, {'C14.S4': 'C01.r'}, 'every include of a file pastes the text of that file: the file table is only read by the scanner - content is neither rewritten nor moved out of it'),
+                         (_c03, {'C03.f': 'C01.h'}, 'a call binds the record of the routine registered under that name; the latest definition is registered by assignment'),
                          (_c04, {'C04.e': 'C01.k'}, 'a GOTO / IF..GOTO jumps to the mark of that name in its own program: marks are kept per routine and a mark the routine does not define is rejected'),
                          (c17, {'C17.Z1': 'C01.j'}, 'a reset machine is in the constructor state, so a run after reset() computes what the first run computes'),
                          (c10, {'C10.a': 'C01.i', 'C10.d': 'C01.i2'}, 'macro temporaries of different expansions never coincide, so expansion preserves the meaning of nested macro uses'),
@@ -319,7 +320,8 @@ c01 = with_shared(_c01, [(_c03, {'C03.f': 'C01.h'}, 'a call binds the record of 
                          (_c08, {'C08.a': 'C01.o'}, 'arming a line rewrites marker instructions only: the sites listed for a line are the positions of its POTENTIAL_BREAKs, so no instruction of the program is overwritten'),
                          (c09, {'C09.a': 'C01.l3', 'C09.b': 'C01.l4', 'C09.d': 'C01.l5'}, 'which macro use is rewritten (highest priority, then leftmost, then longest) and where its body is spliced in is part of what a source with macros means'),
                          (c09, {'C09.e': 'C01.l', 'C09.f': 'C01.l2'}, 'a macro use means its body with every $n replaced by what slot n matched, and a literal of the pattern matches by kind and (identifiers, integers, operators) by text: otherwise a program using macros computes something else')])
-c02 = with_shared(_c02, [(c15, {'C15.I4': 'C02.g', 'C15.I6': 'C02.g2'}, 'scanning terminates: no hang on include cycles'),
+c02 = with_shared(_c02, [(c14, {'C14.L7': 'C02.s', 'C14.L1': 'C02.s2'}, 'the scanner that runs is the generated one: rule actions only return a token, they do not read the input themselves (no hand-written loop over yyinput that can run past the buffer)'),
+                         (c15, {'C15.I4': 'C02.g', 'C15.I6': 'C02.g2'}, 'scanning terminates: no hang on include cycles'),
                          (c20, {'C20.A3': 'C02.h', 'C20.A2': 'C02.h2'}, 'no undefined arithmetic inside compile() and no conversion that throws out of it'),
                          (c09, {'C09.e': 'C02.n'}, 'every insertion index that survives extraction is a valid slot index: get_replacement never indexes out of bounds'),
                          (c08, {'C08.e': 'C02.o', 'C08.h': 'C02.o2'}, 'positions carried by tree nodes and tokens are (file, line) pairs of one token, so an error reported there names a line inside a supplied file'),
@@ -345,7 +347,8 @@ c06 = with_shared(_c06, [(_c08, {'C08.c': 'C06.j'}, 'the location reported at a 
                          (_c05, {'C05.d': 'C06.h'}, 'resuming is a loop of single steps that returns at the first step that reports a stop, and not before'),
                          (_c05, {'C05.b': 'C06.f'}, 'break handlers advance by exactly one instruction, so no site is skipped and the location lookup finds the site just passed'),
                          (_c08, {'C08.a': 'C06.g', 'C08.b': 'C06.g2'}, 'the site armed for a location is the marker emitted for that location and line_info names the same location for it, so a stop is reported at the line that was enabled')])
-c07 = with_shared(_c07, [(c18, {'C18.P2': 'C07.q'}, 'a variable view shows this activation only: the accessor keeps nothing from an earlier call'),
+c07 = with_shared(_c07, [(c14, {'C14.S4': 'C07.u'}, 'the line reported at a stop is the line of the statement in the file as supplied: the scanner reads the content unmodified'),
+                         (c18, {'C18.P2': 'C07.q'}, 'a variable view shows this activation only: the accessor keeps nothing from an earlier call'),
                          (_c04, {'C04.e': 'C07.s'}, 'the lines a run visits are those of its own routine: marks are kept per routine (a fresh table for every routine), so a jump never lands in another program'),
                          (_c08, {'C08.c': 'C07.t'}, 'the location reported at a stop is a line of the program: listing or querying a program adds no entries to the site table'),
                          (_c05, {'C05.d': 'C07.r'}, 'execute() only drives executeSingle(): stepping by executeSingle() and resuming by execute() go through the same code, neither keeps state of its own (caches, counters) that the other would have to invalidate'),
@@ -357,6 +360,7 @@ c07 = with_shared(_c07, [(c18, {'C18.P2': 'C07.q'}, 'a variable view shows this 
                          (c08, {'C08.a': 'C07.i'}, 'a site is created (and listed) on every call of breakpoint()'),
                          (_c03, {'C03.f': 'C07.j'}, 'a call enters the routine of the latest definition under that name, so the lines visited and the variables listed are those of the routine the source calls')])
 c08 = with_shared(_c08, [(_c06, {'C06.b': 'C08.f', 'C06.c': 'C08.f2', 'C06.e': 'C08.g'}, 'the VM never adds a location: enable/clear only touch listed locations; locations are keyed by an order that keeps distinct (file, line) pairs apart'),
+                         (c14, {'C14.S9': 'C08.j'}, 'a location is (file, line) of a token as the scanner saw it: the records that carry them to the generator store what they are given'),
                          (_c05, {'C05.a': 'C08.f3'}, 'the VM writes only opcodes at listed sites'),
                          (c14, {'C14.S4': 'C08.h'}, 'a location is a line of the file as it was supplied: the scanner reads the content unmodified (rewriting line ends before scanning shifts every line number)')])
 c16 = with_shared(_c16, [(_c05, {'C05.b': 'C16.O7'}, 'every instruction, a breakpoint marker included, advances the machine: a halting program also halts when it is stepped'),
@@ -372,12 +376,14 @@ c09 = with_shared(_c09, [(c18, {'C18.P2': 'C09.k'}, 'the detectors that are appl
                          (_c12, {'C12.f': 'C09.m'}, 'every definition takes part in the choice of the next step: no definition is left without a detector, so priority decides and not the order of definition'),
                          (c11, {'C11.d': 'C09.l'}, 'rewriting repeats until no pattern matches, within the documented budget: the front end passes the constant budget, not one derived from the input'),
                          (_c12, {'C12.f': 'C09.j'}, 'every definition is matched by a detector built from that very definition (and the caller\'s definitions are left intact for the next call)')])
-c12 = with_shared(_c12, [(_c09, {'C09.h': 'C12.h'}, 'conflicts are judged against the grammar of the language: the pattern grammar derives exactly the language\'s values, argument lists and statement sequences')])
+c12 = with_shared(_c12, [(c14, {'C14.L2': 'C12.m', 'C14.L3': 'C12.n'}, 'a slot is a slot: every documented spelling of the five template tokens is scanned as that template token (a pattern whose statement slot is read as four literal tokens is never checked as ambiguous)'),
+                         (_c09, {'C09.h': 'C12.h'}, 'conflicts are judged against the grammar of the language: the pattern grammar derives exactly the language\'s values, argument lists and statement sequences')])
 c14 = with_shared(_c14, [(c15, {'C15.I4': 'C14.S5'}, 'an include is replaced by the tokens of the named file exactly once per directive: a file that is being scanned is not entered again'),
                          (c15, {'C15.I3': 'C14.S7'}, 'the file an include names is the text between its quotation marks, byte for byte: the tokens spliced in are those of that file'),
                          (c18, {'C18.P1': 'C14.S8'}, 'the stack of open files belongs to one scan() call: no static or global object survives the call'),
                          (_c02, {'C02.f': 'C14.S6'}, 'synthesised tokens (the final end-of-file token) are labelled with the position of the last scanned token')])
-c17 = with_shared(_c17, [(_c18, {'C18.P6': 'C17.Z9'}, 'a newly constructed machine starts from the compiled program, not from one that another machine has armed: the program is copied at construction'),
+c17 = with_shared(_c17, [(_c06, {'C06.e': 'C17.Z12'}, 'the set of enabled locations and the table of sites are keyed by one strict weak order that tells any two locations apart: what the set records is what was armed'),
+                         (_c18, {'C18.P6': 'C17.Z9'}, 'a newly constructed machine starts from the compiled program, not from one that another machine has armed: the program is copied at construction'),
                          (_c05, {'C05.a': 'C17.Z11'}, 'only setBreakPoint/clearBreakpoints/reset rewrite opcodes, and only between BREAK and POTENTIAL_BREAK at the sites of recorded locations: what reset() restores is all that was ever armed'),
                          (_c06, {'C06.c': 'C17.Z10'}, 'what is armed is what is recorded as enabled: a request for a location that is not listed has no effect at all, so reset() and clearBreakpoints(), which restore the sites of the recorded locations, restore every armed site'),
                          (_c08, {'C08.a': 'C17.Z6', 'C08.b': 'C17.Z7'}, 'reset() puts POTENTIAL_BREAK at every listed site: the listed sites are exactly the marker instructions, otherwise a reset machine runs a different program than a fresh one'),
@@ -387,18 +393,24 @@ c18 = with_shared(_c18, [(_c08, {'C08.c': 'C18.P11'}, 'observers (the disassembl
                          (_c02, {'C02.p': 'C18.P9'}, 'no value is read before it was written: results do not depend on what happened to be in memory')])
 c20 = with_shared(_c20, [(_c09, {'C09.b': 'C20.A7', 'C09.e': 'C20.A8'}, 'a priority that passed the range check is the priority that is used: it is not narrowed on the way into the definition; '
                                  'an insertion index whose digits do not fit (reported as -1 by the conversion) is rejected by the range test on both sides'),
+                         (c18, {'C18.P2': 'C20.A9'}, 'a range error is reported every time the faulty source is compiled: the diagnostic path keeps no static state that could swallow the report of a later compilation'),
+                         (c14, {'C14.L2': 'C20.A10'}, 'a number is a sequence of digits without a sign: the scanner has no spelling for a negative literal or priority, so the one-sided range test of the conversion is enough'),
                          (_c02, {'C02.e': 'C20.A6'}, 'a recorded range error rejects the source: correctness is decided after the errors of every stage were merged'),
                          (c11, {'C11.c': 'C20.A5'}, 'a range error recorded by any stage makes the compilation incorrect: the errors of every stage are merged before correctness is decided')])
 _c19 = c19
 _c15 = c15
-c15 = with_shared(_c15, [(c14, {'C14.L2': 'C15.I9', 'C14.L3': 'C15.I10', 'C14.L6': 'C15.I11'}, 'what an include directive names is decided by the scanner: a quoted name is any text between two quotes (FNAME), its token text is the whole match, and text in a // comment is no directive'),
+c15 = with_shared(_c15, [(c11, {'C11.a': 'C15.I13'}, 'a missing main file ends in a report, not in a crash: with no definitions at all the expansion stage still hands the token stream (at least its end-of-file token) back to the front end'),
+                         (_c14, {'C14.S9': 'C15.I12'}, 'an include problem is reported under its own kind and at the file the scanner was given: the error kinds are distinct numbers and the carrier records store names unchanged'),
+                         (c14, {'C14.L2': 'C15.I9', 'C14.L3': 'C15.I10', 'C14.L6': 'C15.I11'}, 'what an include directive names is decided by the scanner: a quoted name is any text between two quotes (FNAME), its token text is the whole match, and text in a // comment is no directive'),
                          (_c02, {'C02.e': 'C15.I8'}, 'a reported include problem rejects the source: correctness is decided after the scanner\'s errors were merged')])
 _c11 = c11
-c11 = with_shared(_c11, [(_c02, {'C02.e': 'C11.e'}, 'the too-many-substitutions error makes the result incorrect: correctness is decided after the errors of macro application were merged')])
+c11 = with_shared(_c11, [(c09, {'C09.g': 'C11.f'}, 'a macro that still matches is found: every start position is tried and the table-driven parser rejects only where the tables say so - a runaway expansion cannot end silently because matching gave up'),
+                         (_c02, {'C02.e': 'C11.e'}, 'the too-many-substitutions error makes the result incorrect: correctness is decided after the errors of macro application were merged')])
 c12 = with_shared(c12, [(_c11, {'C11.c': 'C12.j'}, 'the conflict errors of macro application reach the caller: parse() forwards the errors of every stage'),
                         (_c02, {'C02.e': 'C12.i'}, 'a reported ambiguity makes the result incorrect: correctness is decided after the errors of macro application were merged')])
 _c10 = c10
 c10 = with_shared(_c10, [(_c03, {'C03.g': 'C10.f'}, 'different names denote different variables only if the register numbers they are mapped to are kept whole: no operand type narrower than the numbers the generator computes'),
+                         (c14, {'C14.S9': 'C10.i'}, 'the name of a temporary reaches the generator whole: tokens and syntax-tree nodes store the text they are given (a node that cuts its text drops the pass number at the end of the name)'),
                          (_c01, {'C01.f': 'C10.h'}, 'different names denote different variables: the generator finds a register under the whole name (names of temporaries differ at their end) and no '
                                 'temporary register of the generator has a name a macro temporary or a user variable can have'),
                          (c14, {'C14.L2': 'C10.g'}, 'equal n means equal spelling: the scanner admits exactly one spelling of a temporary\'s number (no leading zeros)'),
